@@ -7,5 +7,13 @@ def run(c):
         obl_fixed.obl_helpers(c, 3, 2, budget_s=900)
     else:
         obl_fixed.obl_helpers(c, 4, 3, budget_s=3000)
+    # "Backspace removes exactly the last code point": the backspace event of the session obligation, text of any scalar values
+    # (joiners included), from every invariant-satisfying state
+    c.only_clauses = {"backspace_pops_one_code_point"}
+    if c.tier == "quick":
+        obl_fixed.obl_session_fixed(c, 3, 1, 1, budget_s=600, events=("backspace",))
+    else:
+        obl_fixed.obl_session_fixed(c, 4, 2, 1, budget_s=1500, events=("backspace",))
+    c.only_clauses = None
     c.assume("reference silent on: rare Sanskrit letters (spec/classes.py:RARE), automatic vowel forming after & ' and danda, "
              "multi-code-point key values whose first character triggers a rule (other than zo-fola)")
